@@ -459,9 +459,15 @@ func genNumerals(w *lib.Writer, r *lib.Rand, tier string) {
 	if tier == "thorough" {
 		nlong = 120
 	}
+	// the evaluator's exact arithmetic on a 12000-digit numeral costs ~90 s of coqc each: the quick tier
+	// keeps the exponent just beyond 10000 (the witness of /repo 774c46e) and a 3000-digit integer part
+	nbig, nbig2 := 10050, 3000
+	if tier == "thorough" {
+		nbig, nbig2 = 12000, 12000
+	}
 	longs := []string{
 		"1" + strings.Repeat("0", 800) + "e-800", strings.Repeat("9", 850) + "e-850", "1" + strings.Repeat("0", 799) + "e-799",
-		"0." + strings.Repeat("0", 12000) + "1e12001", "1" + strings.Repeat("0", 12000) + "e-12000", "-" + strings.Repeat("0", 900) + "5" + strings.Repeat("0", 900) + ".5e-900",
+		"0." + strings.Repeat("0", nbig) + "1e" + strconv.Itoa(nbig+1), "1" + strings.Repeat("0", nbig2) + "e-" + strconv.Itoa(nbig2), "-" + strings.Repeat("0", 900) + "5" + strings.Repeat("0", 900) + ".5e-900",
 		"0." + strings.Repeat("0", 900) + "25e+901", strings.Repeat("1", 1300), "1e" + strings.Repeat("0", 900) + "2",
 	}
 	for i := 0; i < nlong; i++ {
